@@ -99,7 +99,16 @@ func valDecls() []valDecl {
 
 const typeH = "1,-,9;2,1,-;3,-,-;4,-,9"
 
-var boundaries = []string{"propStore", "dynPropStore", "idxStore", "staticStore", "fnParam", "methParam", "staticParam", "ctorParam", "fnReturn", "methReturn"}
+var boundaries = []string{"propStore", "dynPropStore", "idxStore", "staticStore", "fnParam", "methParam", "staticParam", "ctorParam", "fnReturn", "methReturn",
+	"closureParam", "closureParam/arrow", "closureReturn", "closureReturn/arrow", "promotedParam"}
+
+// modelBoundary: script variants of one boundary share the model's boundary
+func modelBoundary(b string) string {
+	if i := strings.IndexByte(b, '/'); i >= 0 {
+		return b[:i]
+	}
+	return b
+}
 
 func isStore(b string) bool { return strings.HasSuffix(b, "Store") }
 
@@ -133,6 +142,7 @@ func typeScript(tag string, cases []TyCase) string {
 		fmt.Fprintf(&sb, "class CT%s_%d { public $got = \"unset\"; public function __construct(%s $x) { $this->got = tg%s($x); } }\n", tag, i, at(t.Src), tag)
 		fmt.Fprintf(&sb, "function fp%s_%d(%s $x) { return tg%s($x); }\n", tag, i, at(t.Src), tag)
 		fmt.Fprintf(&sb, "function fr%s_%d($x): %s { return $x; }\n", tag, i, at(t.Src))
+		fmt.Fprintf(&sb, "class PP%s_%d { public function __construct(public %s $x) { } }\n", tag, i, at(t.Src))
 	}
 	// cell: $f performs the crossing and returns the tag of what arrived; $after reads the slot back
 	fmt.Fprintf(&sb, "function tcell%s($id, $f, $after) {\n  try { $v = $f(); $r = \"ok=\" . $v; } catch (\\Throwable $e) { $r = \"denied=\" . get_class($e); }\n  echo \"\\n#\", $id, \":\", $r, \":\", $after(), \"\\n\";\n}\n", tag)
@@ -162,6 +172,16 @@ func typeScript(tag string, cases []TyCase) string {
 			f = fmt.Sprintf("fn() => TP%s::sp_%d(%s)", tag, i, v)
 		case "ctorParam":
 			f = fmt.Sprintf("function() { $c = new CT%s_%d(%s); return $c->got; }", tag, i, v)
+		case "closureParam":
+			f = fmt.Sprintf("function() { $g = function(%s $x) { return tg%s($x); }; return $g(%s); }", at(tys[i].Src), tag, v)
+		case "closureParam/arrow":
+			f = fmt.Sprintf("function() { $g = fn(%s $x) => tg%s($x); return $g(%s); }", at(tys[i].Src), tag, v)
+		case "closureReturn":
+			f = fmt.Sprintf("function() { $g = function($x): %s { return $x; }; return tg%s($g(%s)); }", at(tys[i].Src), tag, v)
+		case "closureReturn/arrow":
+			f = fmt.Sprintf("function() { $g = fn($x): %s => $x; return tg%s($g(%s)); }", at(tys[i].Src), tag, v)
+		case "promotedParam":
+			f = fmt.Sprintf("function() { $c = new PP%s_%d(%s); return tg%s($c->x); }", tag, i, v, tag)
 		case "fnReturn":
 			f = fmt.Sprintf("fn() => tg%s(fr%s_%d(%s))", tag, tag, i, v)
 		case "methReturn":
@@ -207,7 +227,7 @@ func runTypes(c *vh.Ctx, m *vh.Model, tag string, only *TyCase) {
 	}
 	var lines []string
 	for _, x := range cases {
-		lines = append(lines, "bd\t"+typeH+"\t"+x.Boundary+"\t"+vals[x.Val].Model+"\t"+tys[x.Ty].Model)
+		lines = append(lines, "bd\t"+typeH+"\t"+modelBoundary(x.Boundary)+"\t"+vals[x.Val].Model+"\t"+tys[x.Ty].Model)
 	}
 	var ans []string
 	if m != nil {
@@ -215,6 +235,19 @@ func runTypes(c *vh.Ctx, m *vh.Model, tag string, only *TyCase) {
 		if ans, err = m.AskBatch(lines); err != nil {
 			c.Mismatch(nil, "", err.Error(), "model driver failed")
 			ans = nil
+		}
+	}
+	// the Go oracle against the Lean specification: `ty` answers Types.accepts, proved ↔ Spec.Types.Denotes
+	var tyAns []string
+	if m != nil && ans != nil {
+		var tl []string
+		for _, x := range cases {
+			tl = append(tl, "ty\t"+typeH+"\t"+vals[x.Val].Model+"\t"+tys[x.Ty].Model)
+		}
+		var err error
+		if tyAns, err = m.AskBatch(tl); err != nil {
+			c.Mismatch(nil, "", err.Error(), "model driver failed (ty)")
+			tyAns = nil
 		}
 	}
 	at := func(s string) string { return strings.ReplaceAll(s, "@", tag) }
@@ -228,6 +261,15 @@ func runTypes(c *vh.Ctx, m *vh.Model, tag string, only *TyCase) {
 		isOK := strings.HasPrefix(res, "ok=")
 		isDenied := strings.HasPrefix(res, "denied=")
 		in := tys[x.Ty].Denotes(vals[x.Val].Name)
+		if tyAns != nil {
+			want := "0"
+			if in {
+				want = "1"
+			}
+			if tyAns[id] != want {
+				c.Mismatch(x, "go-oracle:"+want, "lean-spec:"+tyAns[id], "the harness oracle and Spec.Types.denote disagree")
+			}
+		}
 		vtag := at(vals[x.Val].Tag)
 		edge := vals[x.Val].Name == "null" || in
 		c.Eval("ty/"+tag+"/"+x.key(), !in || edge)
